@@ -4,7 +4,7 @@ From Coq Require Import ZArith Lia Bool List.
 From stdpp Require Import unstable.bitblast.
 From MC Require Import Packed.
 Import ListNotations.
-Open Scope Z_scope.
+Local Open Scope Z_scope.
 
 Ltac bb := bitblast; try (f_equal; lia).
 
